@@ -79,7 +79,7 @@ theorem foreign_refused (cfg : GenCfg) (n : Node) (v : Val) (p : List Seg) (op :
     cmpM cfg n .foreign v p op r = .untouched ∧
     lcM cfg isCap n .foreign v p = .unsupported ∧
     (loopM cfg sc ft n .foreign v p).fin = .done ∧ (loopM cfg sc ft n .foreign v p).groups = [] ∧
-    deqM env n .foreign f v v = (if deqArgOf f = .panic then .panic else .f) ∧
+    deqM env n .foreign f v v = (if deqArgOf f = .panic then deqNilPtrPtr env.cfg else .f) ∧
     copyM cfg n .foreign v = .unsupported ∧
     copyToM cfg n fs .foreign v v = .unsupported ∧
     resetM cfg n .foreign v = .unsupported ∧
